@@ -43,12 +43,12 @@ CLAIMS = {
         "note": COMMON_NOTE + "NOT decided: Document::encrypt/decrypt, encrypt_object/decrypt_object on strings, streams and containers (object walking, Crypt overrides, Metadata/XRef exemptions: > 12 GB), AES filters (the aes crate triggers a kani-compiler internal error: intrinsics.rs:243), password authentication, save/reload. The claim covers the RC4/PKCS#5/identity primitives only.",
     },
     "C06": {
-        "text": "Agreement with the standard for the pieces that could be encoded: Algorithm 1 (per-object keys, RC4 40/128-bit and AESV2) - the exact byte string fed to MD5 and the truncation, for ALL file keys, object numbers and generations; Algorithm 1.A (AESV3: 32-byte key used as is, no MD5); Algorithm 2 for revision 2 (MD5 input layout: padded password, O, P little-endian, file id; single digest; 5-byte key) for ALL 5-byte passwords, O entries, permission words and file ids; Permissions::p_value vs Table 22 for ALL 2^64 bit patterns; RC4 vs the published test vector on ALL 8-byte plaintexts (two more keys vs an independent reference in the thorough tier); PKCS#5 padding for ALL blocks.",
+        "text": "Agreement with the standard for the pieces that could be encoded: Algorithm 1 (per-object keys, RC4 40/128-bit and AESV2) - the exact byte string fed to MD5 and the truncation, for ALL file keys, object numbers and generations; Algorithm 1.A (AESV3: 32-byte key used as is, no MD5); Algorithm 2 for revision 2 (MD5 input layout: padded password, O, P little-endian, file id; single digest; 5-byte key) for ALL 5-byte passwords, O entries, permission words and file ids; Permissions::p_value vs Table 22 for ALL 2^64 bit patterns; RC4 vs the published test vector on ALL 8-byte plaintexts and vs an independent reference RC4 across the 255-byte index wrap-around (262-byte stream) (two more keys in the thorough tier); PKCS#5 padding for ALL blocks.",
         "design_ref": "DESIGN.md section 4 C06",
         "note": COMMON_NOTE + "MD5 itself is replaced by a recording model (the message construction is what lopdf owns). NOT decided: Algorithm 2 for revisions 3-4 (the 50-round harnesses exceed the memory cap), Algorithms 2.A/2.B and 3-13, R5/R6, AES ciphertexts, interoperability on whole files.",
     },
     "C09": {
-        "text": "PNG predictors vs the PNG text (Paeth for all 2^24 triples, every filter type on all rows <= 4 bytes x bpp 1..3), ASCII85 vs an ISO 7.4.3 reference on all bodies of 1-2 bytes + '~>' (3 bytes in the thorough tier), DecodeParms -> (bytes-per-pixel, columns) plumbing for Predictor 0..20 / Columns <= 10^6 / Colors <= 32 / Bits 8|16 with each key present or null, Length bookkeeping of Stream::new/set_content, and compress(): never longer, Length consistent, Filter set iff replaced, already-filtered streams untouched (encoder stub with arbitrary output length).",
+        "text": "PNG predictors vs the PNG text (Paeth for all 2^24 triples, every filter type on all rows <= 4 bytes x bpp 1..3), ASCII85 vs an ISO 7.4.3 reference on all bodies of 1-2 bytes + '~>' (3 bytes in the thorough tier), the LZW stage honouring /EarlyChange (integer 0 = late, 1 or absent = early; decoder variant made observable by the tagged stub), Flate/LZW stages without parameters passing the codec output through, DecodeParms -> (bytes-per-pixel, columns) plumbing for Predictor 0..20 / Columns <= 10^6 / Colors <= 32 / Bits 8|16 with each key present or null, Length bookkeeping of Stream::new/set_content, and compress(): never longer, Length consistent, Filter set iff replaced, already-filtered streams untouched (encoder stub with arbitrary output length).",
         "design_ref": "DESIGN.md section 4 C09",
         "note": COMMON_NOTE + "Flate and LZW bit-level decoding are third-party and replaced by stubs. NOT decided: filter chains and DecodeParms given as an array (harnesses did not reach a verdict; by reading, the array form is ignored by decompressed_content - recorded in DESIGN.md section 6 as undecided), set_plain_content/decompress bookkeeping, multi-row decode_frame, Bits < 8.",
     },
@@ -58,7 +58,7 @@ CLAIMS = {
         "note": COMMON_NOTE + "NOT decided: Content::encode's own separator logic (its harness did not reach a verdict), Content::decode (nom), inline images. Shares its harnesses with C01.",
     },
     "C16": {
-        "text": "Text strings and tables: text_string() for EVERY one-character text up to U+07FF is either the single PDFDocEncoding byte - only when that byte decodes back to the same character, always for printable ASCII - or BOM + UTF-16BE; decode_text_string() returns the character for FE FF + EVERY non-surrogate unit, an astral character for EVERY surrogate pair, exactly one character for every PDFDocEncoding byte text_string() can emit, and the text without the mark for UTF-8-with-BOM strings (every U+0080..U+07FF); it returns a value or an error on ALL raw strings of 3-4 bytes; encode_utf16_be for EVERY scalar value and encode_utf8 for every U+0080..U+07FF; all five one-byte tables free of surrogate cells; printable-ASCII and Latin-1 portions agree with the Annex D rules.",
+        "text": "Text strings and tables: text_string() for EVERY one-character text up to U+07FF is either the single PDFDocEncoding byte - only when that byte decodes back to the same character, always for printable ASCII - or BOM + UTF-16BE; decode_text_string() returns the character for FE FF + EVERY non-surrogate unit, an astral character for EVERY surrogate pair, exactly one character for every PDFDocEncoding byte text_string() can emit, and the text without the mark for UTF-8-with-BOM strings (every U+0080..U+07FF); it returns a value or an error on ALL raw strings of 3-4 bytes; literal strings of 1-2 bytes (what a text-showing operand or Info entry is saved as) are recovered by an ISO reader; encode_utf16_be for EVERY scalar value and encode_utf8 for every U+0080..U+07FF; all five one-byte tables free of surrogate cells; printable-ASCII and Latin-1 portions agree with the Annex D rules.",
         "design_ref": "DESIGN.md section 4 C16",
         "note": COMMON_NOTE + "The round trip is decided as two halves on one-character strings (encode half and decode half on concrete-length byte strings), not on arbitrary strings. NOT decided: multi-character strings, re-encoding stability of the one-byte tables (string_to_bytes), text extraction, save/reload.",
     },
